@@ -154,6 +154,7 @@ def gen_fit(rng, tier):
     n = len(case["nodes"])
     N = rng.randint(n + 4, 30)
     case["data"] = [[rs(Fraction(rng.randint(-20, 20), 2)) for _ in range(n)] for _ in range(N)]
+    case["index"] = rng.choice(["range", "range", "shuffled", "offset", "str"])       # least squares does not depend on row labels
     return case
 
 
@@ -166,6 +167,16 @@ def run_fit(case, drv):
     m.add_nodes_from(names)
     m.add_edges_from([(names[u], names[v]) for u, v in case["edges"]])
     df = pd.DataFrame([[float(Fraction(x)) for x in row] for row in case["data"]], columns=names)
+    ik = case.get("index", "range")
+    if ik == "shuffled":
+        import random
+        lab = list(range(len(df)))
+        random.Random(len(df) * 7 + n).shuffle(lab)
+        df.index = lab                         # same rows, permuted labels
+    elif ik == "offset":
+        df.index = [3 * i + 5 for i in range(len(df))]
+    elif ik == "str":
+        df.index = ["r%d" % i for i in range(len(df))]
     try:
         m.fit(df)
     except Exception as e:
@@ -197,7 +208,7 @@ def gen_gd(rng, tier):
     n = len(case["nodes"])
     if n < 2:
         return None
-    case["op"] = rng.choice(["marginalize", "marginalize", "reduce", "reduce", "canonical", "product"])
+    case["op"] = rng.choice(["marginalize", "marginalize", "reduce", "reduce", "canonical", "product", "canon_ops", "canon_ops"])
     case["prime"] = rng.choice(["none", "none", "precision", "canonical", "copy_precision"])     # what was asked of the object before
     sub = rng.sample(range(n), rng.randint(1, n - 1))
     case["sub"] = sub
@@ -220,6 +231,8 @@ def run_gd(case, drv):
     sub = [pos[v] for v in case["sub"]]
     keep = [i for i in range(n) if i not in sub]
     tags = dict(op=op, n=n, nsub=len(sub), prime=case.get("prime", "none"))
+    if op == "canon_ops":
+        return run_canon_ops(case, names, n)
     try:
         # a history on ONE object: reading derived quantities first must not change what later operations return
         if case.get("prime") == "precision":
@@ -310,6 +323,67 @@ def run_gd(case, drv):
             if np.abs(np.asarray(cf.K, dtype=float) - Kx).max() > tolK:
                 return fail(f"{op} (after {case.get('prime')}): canonical K of the result is not the inverse of its covariance", **tags)
     return ok(nontrivial=len(sub) >= 1, **tags)
+
+
+def run_canon_ops(case, names, n):
+    """product / divide of two canonical factors whose scopes overlap and are listed in unrelated orders: in information form the
+    parameters add (subtract) variable by variable - K, h are assembled BY NAME with exact rationals"""
+    import random
+    import numpy as np
+    from pgmpy.factors.distributions.CanonicalDistribution import CanonicalDistribution
+    prng = random.Random(case.get("perm_seed", 0) + 17)
+    pool = list(names) + ["extra"]
+    k1 = prng.randint(1, min(3, len(pool)))
+    v1 = prng.sample(pool, k1)
+    shared = prng.sample(v1, prng.randint(1, len(v1)))
+    others = [x for x in pool if x not in v1]
+    v2 = shared + prng.sample(others, prng.randint(0, min(2, len(others))))
+    prng.shuffle(v2)
+
+    def rand_sym(k):
+        A = [[Fraction(prng.randint(-3, 3), prng.choice([1, 2])) for _ in range(k)] for _ in range(k)]
+        return [[sum(A[t][i] * A[t][j] for t in range(k)) + (1 if i == j else 0) for j in range(k)] for i in range(k)]
+    K1, K2 = rand_sym(len(v1)), rand_sym(len(v2))
+    h1 = [Fraction(prng.randint(-6, 6), 2) for _ in v1]
+    h2 = [Fraction(prng.randint(-6, 6), 2) for _ in v2]
+    g1, g2 = Fraction(prng.randint(-4, 4), 2), Fraction(prng.randint(-4, 4), 2)
+    opn = prng.choice(["product", "divide", "mul"])
+    sign = -1 if opn == "divide" else 1
+    tags = dict(op="canon_" + opn, n1=len(v1), n2=len(v2), same_scope=set(v1) == set(v2))
+    try:
+        f1 = CanonicalDistribution(list(v1), np.array([[float(x) for x in r] for r in K1]), np.array([[float(x)] for x in h1]), float(g1))
+        f2 = CanonicalDistribution(list(v2), np.array([[float(x) for x in r] for r in K2]), np.array([[float(x)] for x in h2]), float(g2))
+        snap = (list(f2.variables), np.array(f2.K, dtype=float).copy(), np.array(f2.h, dtype=float).copy())
+        res = f1 * f2 if opn == "mul" else getattr(f1, opn)(f2, inplace=False)
+    except Exception as e:
+        return fail(f"CanonicalDistribution {opn} of {v1} and {v2} raised {type(e).__name__}: {e}", **tags)
+    allv = list(dict.fromkeys(list(v1) + list(v2)))
+    if set(res.variables) != set(allv):
+        return fail(f"canonical {opn}: scope {res.variables}, expected the union {allv}", **tags)
+    Kx = {(a, b): Fraction(0) for a in allv for b in allv}
+    hx = {a: Fraction(0) for a in allv}
+    for i, a in enumerate(v1):
+        hx[a] += h1[i]
+        for j, b in enumerate(v1):
+            Kx[(a, b)] += K1[i][j]
+    for i, a in enumerate(v2):
+        hx[a] += sign * h2[i]
+        for j, b in enumerate(v2):
+            Kx[(a, b)] += sign * K2[i][j]
+    rv = list(res.variables)
+    RK = np.asarray(res.K, dtype=float)
+    Rh = np.asarray(res.h, dtype=float).reshape(-1)
+    for i, a in enumerate(rv):
+        if abs(Rh[i] - float(hx[a])) > 1e-9 * max(1, abs(float(hx[a]))):
+            return fail(f"canonical {opn} of {v1} and {v2}: h[{a}] = {Rh[i]}, information form gives {float(hx[a])}", **tags)
+        for j, b in enumerate(rv):
+            if abs(RK[i, j] - float(Kx[(a, b)])) > 1e-9 * max(1, abs(float(Kx[(a, b)]))):
+                return fail(f"canonical {opn} of {v1} and {v2}: K[{a},{b}] = {RK[i, j]}, information form gives {float(Kx[(a, b)])}", **tags)
+    if abs(float(res.g) - float(g1 + sign * g2)) > 1e-9:
+        return fail(f"canonical {opn}: g = {res.g}, expected {float(g1 + sign * g2)}", **tags)
+    if list(f2.variables) != snap[0] or np.abs(np.asarray(f2.K, dtype=float) - snap[1]).max() > 0 or np.abs(np.asarray(f2.h, dtype=float) - snap[2]).max() > 0:
+        return fail(f"canonical {opn} modified its second operand", **tags)
+    return ok(nontrivial=len(allv) >= 2, **tags)
 
 
 STREAMS = [
